@@ -404,3 +404,122 @@ func constOfExpr(p *packages.Package, e ast.Expr) (constant.Value, bool) {
 	}
 	return nil, false
 }
+
+// ---- cells: locals spilled to memory and variables captured by closures ----------------------
+
+// cellOf resolves an address value to the Alloc that owns the storage when the address is a local
+// Alloc or a closure's FreeVar bound to one (transitively). Returns nil otherwise.
+func cellOf(addr ssa.Value) *ssa.Alloc {
+	for i := 0; i < 6; i++ {
+		switch x := addr.(type) {
+		case *ssa.Alloc:
+			return x
+		case *ssa.FreeVar:
+			fn := x.Parent()
+			parent := fn.Parent()
+			if parent == nil {
+				return nil
+			}
+			idx := -1
+			for j, fv := range fn.FreeVars {
+				if fv == x {
+					idx = j
+				}
+			}
+			var bound ssa.Value
+			for _, b := range parent.Blocks {
+				for _, in := range b.Instrs {
+					if mc, ok := in.(*ssa.MakeClosure); ok && mc.Fn == fn && idx >= 0 && idx < len(mc.Bindings) {
+						bound = mc.Bindings[idx]
+					}
+				}
+			}
+			if bound == nil {
+				return nil
+			}
+			addr = bound
+		default:
+			return nil
+		}
+	}
+	return nil
+}
+
+// cellStores returns every value stored into the cell, in its function and in nested closures.
+func cellStores(cell *ssa.Alloc) []ssa.Value {
+	var out []ssa.Value
+	var visit func(fn *ssa.Function)
+	visit = func(fn *ssa.Function) {
+		for _, b := range fn.Blocks {
+			for _, in := range b.Instrs {
+				if st, ok := in.(*ssa.Store); ok && cellOf(st.Addr) == cell {
+					out = append(out, st.Val)
+				}
+			}
+		}
+		for _, a := range fn.AnonFuncs {
+			visit(a)
+		}
+	}
+	visit(cell.Parent())
+	return out
+}
+
+// origins expands a value through φ, conversions and loads of local/captured cells down to the
+// values that can flow into it.
+func origins(v ssa.Value) []ssa.Value {
+	var out []ssa.Value
+	seen := map[ssa.Value]bool{}
+	var walk func(ssa.Value)
+	walk = func(v ssa.Value) {
+		if v == nil || seen[v] {
+			return
+		}
+		seen[v] = true
+		switch x := v.(type) {
+		case *ssa.Phi:
+			for _, e := range x.Edges {
+				walk(e)
+			}
+			return
+		case *ssa.ChangeType:
+			walk(x.X)
+			return
+		case *ssa.UnOp:
+			if x.Op == token.MUL {
+				if cell := cellOf(x.X); cell != nil {
+					for _, s := range cellStores(cell) {
+						walk(s)
+					}
+					return
+				}
+			}
+		}
+		out = append(out, v)
+	}
+	walk(v)
+	return out
+}
+
+// fieldOfLoad: v is a load of a struct field; returns "pkg.Type.field".
+func fieldOfLoad(v ssa.Value) (string, bool) {
+	u, ok := v.(*ssa.UnOp)
+	if !ok || u.Op != token.MUL {
+		return "", false
+	}
+	fa, ok := u.X.(*ssa.FieldAddr)
+	if !ok {
+		return "", false
+	}
+	return fieldAddrID(fa), true
+}
+
+func fieldAddrID(fa *ssa.FieldAddr) string {
+	pt := fa.X.Type().Underlying().(*types.Pointer).Elem()
+	st := pt.Underlying().(*types.Struct)
+	name := pt.String()
+	if n, ok := pt.(*types.Named); ok {
+		name = n.Obj().Pkg().Name() + "." + n.Obj().Name()
+	}
+	return name + "." + st.Field(fa.Field).Name()
+}
